@@ -98,6 +98,7 @@ type World struct {
 	turbo   bool // a turbo refine (VImportCommit) may still be running
 	qhist   map[string]*qHist
 	openedAt int64 // simulated time of the last engine.Open
+	vioFault *OpFault
 
 	evMu   sync.Mutex
 	Events []EvRec // disk events of the current op window
